@@ -48,7 +48,7 @@ ResetAll ==
   /\ advInit' = ConnInit /\ advConn' = ConnInit /\ advStr' = <<>>
   /\ oweConn' = 0 /\ oweStr' = <<>> /\ enl' = RecvConn - ConnInit /\ ourSet' = FALSE
   /\ starved' = <<>> /\ errOwed' = {} /\ dead' = FALSE
-  /\ last' = NoFrame /\ stall' = FALSE /\ burst' = 0 /\ dropped' = FALSE
+  /\ last' = NoFrame /\ stall' = FALSE /\ burst' = 0 /\ dropped' = FALSE /\ armed' = TRUE
 
 Unch == UNCHANGED vars
 
@@ -129,7 +129,7 @@ T_Step ==
        [] e.ev = "SozuBigFrame" ->                                   \* a frame header of any type, judged by P_C14_FrameSize
             /\ last' = [NoFrame EXCEPT !.k = "X", !.sid = e.sid, !.len = e.n] /\ stall' = FALSE
             /\ UNCHANGED <<pend, nset, eff, connWin, strWin, ids, sst, pst, rem, up, nextOurs, lastPeer, cont, needUpd,
-                           advInit, advConn, advStr, oweConn, oweStr, enl, ourSet, starved, errOwed, dead, burst, dropped>>
+                           advInit, advConn, advStr, oweConn, oweStr, enl, ourSet, starved, errOwed, dead, burst, dropped, armed>>
             /\ Note("SozuBigFrame", e.n <= eff.maxFrame \/ ByResetDrop)
             /\ CountDev4(ByResetDrop /\ e.n > eff.maxFrame)
        [] e.ev \in {"SozuForeign", "SozuOther"} ->                    \* judged by P_C14_WholeFrames
@@ -137,7 +137,7 @@ T_Step ==
             /\ last' = [NoFrame EXCEPT !.k = (IF e.ev = "SozuForeign" \/ e.ty > 9 THEN "Z" ELSE "-"), !.sid = e.sid, !.len = e.n]
             /\ stall' = FALSE
             /\ UNCHANGED <<pend, nset, eff, connWin, strWin, ids, sst, pst, rem, up, nextOurs, lastPeer, cont, needUpd,
-                           advInit, advConn, advStr, oweConn, oweStr, enl, ourSet, starved, errOwed, dead, burst, dropped>>
+                           advInit, advConn, advStr, oweConn, oweStr, enl, ourSet, starved, errOwed, dead, burst, dropped, armed>>
             /\ Note(e.ev, e.ev = "SozuForeign" \/ e.ty > 9)          \* PRIORITY / PUSH_PROMISE: sozu never sends them
             /\ CountDev4(ByResetDrop)
        [] e.ev = "Stall" -> E_Stall /\ Note("Stall", TRUE)             \* judged by P_C14_Progress
